@@ -115,6 +115,15 @@ fn pair_oracle(p: &Pair) -> Verdict {
     let mn = lib!(a.min(b));
     let mx = lib!(a.max(b));
     let is = |e: Epoch, f: Epoch| e.time_scale == f.time_scale && e.duration.to_parts() == f.duration.to_parts();
+    // `a.min(b)` on a value is Ord::min; the inherent Epoch::min / Epoch::max take `&self` and are reached by reference
+    for (name, got, want_first) in [("Epoch::min(&a, b)", lib!(Epoch::min(&a, b)), true), ("Epoch::max(&a, b)", lib!(Epoch::max(&a, b)), false), ("Ord::min(a, b)", lib!(Ord::min(a, b)), true), ("Ord::max(a, b)", lib!(Ord::max(a, b)), false)] {
+        let ok = match (ord, want_first) {
+            (Ordering::Less, true) | (Ordering::Greater, false) => is(got, a),
+            (Ordering::Less, false) | (Ordering::Greater, true) => is(got, b),
+            _ => is(got, a) || is(got, b),
+        };
+        ensure!(ok, "{} returns {} {} for {}", name, SCALE_NAMES[scale_index(got.time_scale)], count(got.duration), what);
+    }
     match ord {
         Ordering::Less => ensure!(is(mn, a) && is(mx, b), "min/max wrong for {}", what),
         Ordering::Greater => ensure!(is(mn, b) && is(mx, a), "min/max wrong for {}", what),
